@@ -21,6 +21,7 @@ import (
 	commonv2 "metacontroller/pkg/controller/common/api/v2"
 	v1 "metacontroller/pkg/controller/common/customize/api/v1"
 	"metacontroller/pkg/hooks"
+	"sync"
 	"time"
 
 	"k8s.io/apimachinery/pkg/types"
@@ -63,6 +64,11 @@ type Manager struct {
 	customizeCache   *cache.Cache[customizeKey, *v1.CustomizeHookResponse]
 
 	stopCh chan struct{}
+
+	// relatedInformersLock guards relatedInformers: GetRelatedObjects is called
+	// from several workers and from the parallel per-revision goroutines of a
+	// rolling update.
+	relatedInformersLock sync.Mutex
 
 	enqueueParent func(interface{})
 
@@ -125,6 +131,8 @@ func (rm *Manager) Start(stopCh chan struct{}) {
 }
 
 func (rm *Manager) Stop() {
+	rm.relatedInformersLock.Lock()
+	defer rm.relatedInformersLock.Unlock()
 	for _, informer := range rm.relatedInformers {
 		informer.Informer().RemoveEventHandlers()
 		informer.Close()
@@ -166,6 +174,8 @@ func (rm *Manager) getRelatedClient(apiVersion, resource string) (*dynamicclient
 		return nil, nil, err
 	}
 	groupVersion, _ := schema.ParseGroupVersion(apiVersion)
+	rm.relatedInformersLock.Lock()
+	defer rm.relatedInformersLock.Unlock()
 	informer := rm.relatedInformers.Get(groupVersion.WithResource(resource))
 	if informer == nil {
 		informer, err = rm.dynInformers.Resource(apiVersion, resource)
